@@ -156,9 +156,11 @@ def main():
              'kind_free_text': 'wire layouts transcribed into TLA+; value domains enumerated by TLC; every value replayed on the real codec'},
             {'name': 'routing', 'path': 'spec/Routing.tla + vf/props/c19.py', 'serves_properties': ['C19'],
              'kind_free_text': 'decision function in TLA+, invariants by TLC, full decision table replayed on the real router and handler'},
-            {'name': 'components', 'path': 'spec/Mux.tla Lease.tla KeepAlive.tla Lifecycle.tla ServerLifecycle.tla Source.tla Demand.tla Dispatch.tla Setup.tla Transport.tla + vf/props/{mux,leasemodel,kamodel,lifecycle,sourcemodel,demandmodel,dispatch,setupmodel,transportmodel,graphreplay}.py',
-             'serves_properties': ['C04', 'C05', 'C06', 'C09', 'C11', 'C12', 'C13', 'C14', 'C15', 'C16', 'C17', 'C20'],
+            {'name': 'components', 'path': 'spec/Mux.tla Lease.tla LeaseAnnounce.tla KeepAlive.tla Lifecycle.tla ServerLifecycle.tla Source.tla Demand.tla Dispatch.tla Setup.tla Transport.tla Tagging.tla StreamIdsScale.tla + vf/props/{mux,leasemodel,kamodel,lifecycle,sourcemodel,demandmodel,dispatch,setupmodel,transportmodel,taggingmodel,routinghostile,graphreplay}.py',
+             'serves_properties': ['C04', 'C05', 'C06', 'C09', 'C11', 'C12', 'C13', 'C14', 'C15', 'C16', 'C17', 'C18', 'C20'],
              'kind_free_text': 'implementation-shaped TLA+ component specs, TLC exhaustive; every transition / row replayed on the real objects (oracle on the real observations, state mismatch = drift)'},
+            {'name': 'suite-traces', 'path': 'vf/suiteplugin.py + vf/props/suitetraces.py + spec/RSocket.tla', 'serves_properties': ['C08'],
+             'kind_free_text': 'the repository test suite recorded by a pytest plugin (no change to /repo), one trace per endpoint connection, validated by TLC against the connection monitor'},
             {'name': 'conn', 'path': 'spec/RSocket.tla + spec/RSocketTrace.tla + vf/harness + vf/props/conn.py',
              'serves_properties': [p for p in PROPS if p in CLAIMED and CLAIMED[p][5] == 'conn'],
              'kind_free_text': 'connection-level TLA+ monitors; real endpoints driven under a virtual-time loop over a simulated link; recorded traces validated by TLC in batches'},
